@@ -487,12 +487,23 @@ func RunProperty(t *testing.T, p *Property) {
 			}
 			count++
 			if unknown := r.account(sc, out); len(unknown) > 0 {
-				out.Violations = unknown
-				EmitViolation(p, sc, out)
+				f := &failure{Scenario: sc, Violations: unknown, LogHash: out.LogHash}
+				if out.Rep != nil {
+					f.TraceHash = out.Rep.TraceHash
+				}
+				r.last = f
 			}
 		})
 		NoteExhaustive(p.ID, what, count)
 		r.stats.Evaluations -= count // reported separately as exhaustively enumerated cases
+		if r.last != nil { // a case of the grid violates the property: report it, skip the seeded search
+			r.stats.Violations = 1
+			path := r.writeReplay(seed)
+			fmt.Printf("VIOLATION property=%s replay=%s\n  kind=%s\n  %s\n", p.ID, path, r.last.Violations[0].Kind, r.last.Violations[0].Msg)
+			r.writeStats(start)
+			t.Fail()
+			return
+		}
 	}
 	// The search runs in chunks, each an independent rapid.Check with its own derived
 	// seed, so that a wall-clock cap can stop between chunks without touching rapid.
